@@ -398,6 +398,8 @@ class Explorer(object):
                     return v
             if e.id in ('None', 'undefined', 'null'):
                 return None
+            if e.id == 'Infinity':
+                return float('inf')
             if e.id in ('True', 'False'):
                 return e.id == 'True'
             c = self.port.module_consts(self.modname).get(e.id, NOT_HANDLED) if hasattr(self.port, 'module_consts') else NOT_HANDLED
@@ -421,6 +423,9 @@ class Explorer(object):
                 if len(defs_) == 1 and isinstance(defs_[0].value, (ast.Dict, ast.List, ast.Tuple, ast.Set, ast.Call, ast.Constant)) and all(plain_(x) for x in ast.walk(defs_[0].value) if isinstance(x, ast.Name)) \
                         and not any(isinstance(x, ast.Call) and not (isinstance(x.func, ast.Name) and x.func.id in ('Map', 'Set', 'dict', 'set', 'list', 'tuple', 'frozenset')) for x in ast.walk(defs_[0].value)):
                     return self.expr(defs_[0].value, {})
+                if len(defs_) == 1 and isinstance(defs_[0].value, (ast.IfExp, ast.Name, ast.BoolOp, ast.Compare, ast.BinOp)) and not any(isinstance(x, (ast.Call, ast.Lambda)) for x in ast.walk(defs_[0].value)) \
+                        and not any(isinstance(x, ast.Name) and x.id == e.id for x in ast.walk(defs_[0].value)):
+                    return self.expr(defs_[0].value, {})      # a module-level alias / choice between constants, evaluated where it is defined
                 if len(defs_) == 1 and isinstance(defs_[0].value, ast.Call) and isinstance(defs_[0].value.func, ast.Attribute) and isinstance(defs_[0].value.func.value, ast.Name) and defs_[0].value.func.value.id == 're' \
                         and defs_[0].value.func.attr == 'compile' and len(defs_[0].value.args) == 1 and isinstance(defs_[0].value.args[0], ast.Constant) and isinstance(defs_[0].value.args[0].value, str) and not defs_[0].value.keywords:
                     import re as _re
@@ -957,7 +962,22 @@ class Explorer(object):
                 return len(recv)
             if m == 'at' and len(args) == 1 and isinstance(args[0], int):
                 return recv[args[0]] if -len(recv) <= args[0] < len(recv) else None
+            if m == 'flat' and len(args) <= 1 and getattr(self.port, 'name', 'py') == 'js':
+                depth = args[0] if args else 1
+
+                def flat_(xs, d):
+                    out = []
+                    for x in xs:
+                        if isinstance(x, list) and d >= 1:
+                            out.extend(flat_(x, d - 1))
+                        else:
+                            out.append(x)
+                    return out
+                if isinstance(depth, (int, float)):
+                    return flat_(list.__iter__(recv) if False else [list.__getitem__(recv, i) for i in range(len(recv))], depth)
             if m == 'join' and len(args) <= 1:   # JS: lines.join('\n')
+                if getattr(self.port, 'name', 'py') == 'js' and all(x is None or (isinstance(x, (str, int)) and not isinstance(x, bool)) for x in recv) and (not args or isinstance(args[0], str)):
+                    return (args[0] if args else ',').join('' if x is None else str(x) for x in recv)      # null / undefined elements are rendered as empty text
                 if all(isinstance(x, (str, int)) and not isinstance(x, bool) for x in recv) and (not args or isinstance(args[0], str)):
                     return (args[0] if args else ',').join(str(x) for x in recv)
                 return Abs('Joined', sep=(args[0] if args else ','), items=tuple(recv))
